@@ -67,6 +67,10 @@ extern "C" {
 void vrt_acquired (const void *mu, int writer);
 void vrt_releasing (const void *mu, int writer);
 int vrt_holders (const void *mu, int writer);
+/* shadow variables for oracles: not instrumented, so they do not take part in race detection */
+long vrt_sh_add (int i, long d);
+long vrt_sh_get (int i);
+void vrt_sh_set (int i, long v);
 /* state snapshots for the lock-step replay: fn writes a one-line canonical description of the watched objects */
 void vrt_set_snapshot (void (*fn) (char *buf, size_t n));
 void vrt_region_name (const void *p, char *buf, size_t n);
